@@ -4,7 +4,7 @@ a ptrace tracer (harness/killat.c); for every file-system syscall of the runtime
 before the call executes (C09) or the call fails with an errno (C10); the trace
 directory left behind is then examined and given to the real ovniemu."""
 import os, re, json, shutil, subprocess, itertools
-from lib.common import Ctx, Build, Scratch, InfraError, REPO, pmap
+from lib.common import Ctx, Build, Scratch, InfraError, REPO, pmap, plan_of
 from lib import emusrv, obs
 
 SYSCALLS = ["mkdir", "openat", "write", "read", "close", "newfstatat", "getdents64", "unlink", "rmdir", "fdatasync"]
@@ -26,7 +26,34 @@ SCEN = {
     # a thread id used again inside one run: C traces under A's tid after A has ended ("|" separates the earlier owner's life)
     "h7": "A:pinit A:init A:x A:ev16 A:e A:f A:free | C:init C:x C:j4032 C:e C:f C:x C:ev16 C:e C:f C:free A:pfini",
 }
-TIDS = {"A": 101, "B": 102, "C": 101}
+TIDS = {"A": 101, "B": 102, "C": 101, "D": 103}
+# three threads of one process, interleaved
+SCEN["h8"] = "A:pinit A:init B:init D:init A:x B:x D:x D:j3000 A:ev8 B:j100 D:j2000 A:f B:e D:e A:e D:f B:f A:f D:free A:free B:free A:pfini"
+
+
+def interleavings(max_switches):
+    """every merge of the two thread scripts below with at most `max_switches` changes of the running thread (A starts the
+    process and ends it).  The scripts flush automatically (4096-byte staging buffer) and explicitly."""
+    A = ["init", "x", "j3000", "j2000", "e", "f", "free"]
+    B = ["init", "x", "ev4", "j100", "e", "f", "free"]
+    out = {}
+
+    def rec(ia, ib, cur, sw, acc):
+        if ia == len(A) and ib == len(B):
+            out["g%d" % len(out)] = " ".join(["A:pinit"] + acc + ["A:pfini"])
+            return
+        for who in ("A", "B"):
+            if who == "A" and ia == len(A) or who == "B" and ib == len(B):
+                continue
+            nsw = sw + (1 if cur is not None and cur != who else 0)
+            if nsw > max_switches:
+                continue
+            if who == "A":
+                rec(ia + 1, ib, who, nsw, acc + ["A:" + A[ia]])
+            else:
+                rec(ia, ib + 1, who, nsw, acc + ["B:" + B[ib]])
+    rec(0, 0, None, 0, [])
+    return out
 
 LINE = re.compile(r"^(\d+)\s+(\w+)\((.*)\)\s+= (-?\d+|\?)(.*)$")
 
@@ -103,6 +130,11 @@ class Runner:
         log = os.path.join(d, "log")
         # harness/killat.c: ptrace tracer; inject is None, "kill:N" or "err:N:ERRNO" (N = global index in the runtime phase)
         cmd = [self.killat, log, inject or "-"]
+        if scen.startswith("q:"):
+            # not from the initial state: another process of the same loom (pid 200, threads 201..) has left its complete trace there
+            p0 = subprocess.run([self.exe] + SCEN["h4a"].split(), env=dict(env, VERIF_PIDBASE="200"), stdout=subprocess.PIPE, stderr=subprocess.PIPE, timeout=60)
+            if p0.returncode != 0:
+                raise InfraError("run of the other process failed: %s" % p0.stderr.decode("latin1")[-300:])
         if scen.startswith("r:"):
             # not from the initial state: the directories hold the complete trace of an earlier run (another program, same pid and tids)
             p0 = subprocess.run([self.exe] + SCEN["h2"].split(), env=env, stdout=subprocess.PIPE, stderr=subprocess.PIPE, timeout=60)
@@ -151,11 +183,19 @@ def plan(runner, scen, mode, tag):
     rc, msg = runner.emulate(r["final"])
     if rc != 0:
         raise InfraError("fault-free trace of %s/%s rejected by ovniemu: %s" % (scen, mode, msg))
-    # N = position among all logged syscalls of the runtime phase, whatever the thread (the tracer counts the same way)
+    return r, full, seq_of(r["log"])
+
+
+def seq_of(log):
+    """the runtime-phase syscalls of a logged run; n = position among all logged syscalls of the runtime phase, whatever
+    the thread (the tracer counts the same way)"""
+    start = runtime_phase(log)
+    if start is None:
+        return []
     seq = []
     pids = []
     idx = 0
-    for e in r["log"][start:]:
+    for e in log[start:]:
         if e[1] in ("+++",):
             continue
         idx += 1
@@ -164,7 +204,14 @@ def plan(runner, scen, mode, tag):
         if e[0] not in pids:
             pids.append(e[0])
         seq.append({"thread": pids.index(e[0]), "sc": e[1], "n": idx, "args": e[2][:80], "ret": e[3], "tail": e[4]})
-    return r, full, seq
+    return seq
+
+
+def is_mutating(s):
+    mut = s["sc"] in MUTATING and not ("EEXIST" in s["tail"]) and not (s["sc"] == "openat" and "O_RDONLY" in s["args"] and "O_CREAT" not in s["args"])
+    if s["sc"] == "write" and s["args"].startswith(("2,", "-1,")):
+        mut = False
+    return mut
 
 
 def shadowed(seq, i):
@@ -174,11 +221,20 @@ def shadowed(seq, i):
 
 def run_c09(prop, tier):
     ctx = Ctx("C09", tier, "fault_enumeration")
+    tier = plan_of("C09", tier)
+    ctx.cov["plan"] = tier
     scratch = Scratch("C09")
     try:
         build = Build()
         runner = Runner(build, scratch)
-        scens = ["h1", "h3", "h4a", "r:h3", "h7"] if tier == "quick" else [k for k in SCEN if not k.startswith("_")] + ["r:h3", "r:h1", "r:h5"]
+        if tier == "quick":
+            scens = ["h1", "h3", "h4a", "r:h3", "h7"]
+        else:
+            scens = [k for k in SCEN if not k.startswith("_")] + ["r:h3", "r:h1", "r:h5", "q:h1", "q:h3"]
+            gen = interleavings(2 if tier == "thorough" else 3)
+            SCEN.update(gen)
+            scens += list(gen)
+            ctx.part("generated-interleavings", scenarios=len(gen), max_context_switches=2 if tier == "thorough" else 3)
         modes = [("direct", None), ("tmpdir", "json-first"), ("tmpdir", "obs-first")]
         jobs = []
         refs = {}
@@ -200,23 +256,50 @@ def run_c09(prop, tier):
                     r0 = runner.run(tag + "-old", "h2", mode)
                     olds[(sc, mode)] = {tid: (read(os.path.join(dp, "stream.json")), read(os.path.join(dp, "stream.obs")))
                                         for tid, dp in thread_dirs(r0["final"]).items()}
-                last_state = None
                 for i, s in enumerate(seq):
-                    mut = s["sc"] in MUTATING and not ("EEXIST" in s["tail"]) and not (s["sc"] == "openat" and "O_RDONLY" in s["args"] and "O_CREAT" not in s["args"])
-                    if s["sc"] == "write" and s["args"].startswith("2,"):
-                        mut = False
-                    if not mut:
+                    if not is_mutating(s):
                         continue     # killing before a call without file-system effect leaves the same state as the next kill point
-                    if shadowed(seq, i):
-                        nshadow += 1
-                        continue
-                    jobs.append((sc, mode, i, s))
-                ctx.part("plan-" + tag, runtime_syscalls=len(seq), kill_points=sum(1 for j in jobs if j[0] == sc and j[1] == mode))
+                    jobs.append((sc, mode, i, s, None))
+                if sc.startswith("g"):
+                    ctx.part("plan-generated", runtime_syscalls=len(seq), kill_points=sum(1 for j in jobs if j[0] == sc and j[1] == mode))
+                else:
+                    ctx.part("plan-" + tag, runtime_syscalls=len(seq), kill_points=sum(1 for j in jobs if j[0] == sc and j[1] == mode))
+        # second deviation (deep plan): a fault the runtime survives, then the kill at every later point of that run
+        nsurv = 0
+        if tier == "deep":
+            first = []
+            for sc in ("h1", "h2", "h3", "h5"):
+                for mode in modes:
+                    if (sc, mode) not in refs:
+                        refs[(sc, mode)] = plan(runner, sc, mode, "%s-%s-%s" % (sc, mode[0], mode[1]))[1]
+                    seq = plan(runner, sc, mode, "p2")[2]
+                    for i, s in enumerate(seq):
+                        if s["sc"] == "write" and s["args"].startswith(("2,", "-1,")):
+                            continue
+                        for e in FAULTS.get(s["sc"], []):
+                            first.append((sc, mode, s, e))
+
+            def probe(f):
+                sc, mode, s, e = f
+                r = runner.run("s%d" % os.getpid(), sc, mode, inject="err:%d:%s" % (s["n"], e))
+                if r["rc"] != 0 or not any("(INJECTED)" in x[4] for x in r["log"]):
+                    return None
+                return seq_of(r["log"])
+            for f, seq2 in zip(first, pmap(probe, first)):
+                if seq2 is None:
+                    continue
+                nsurv += 1
+                sc, mode, s, e = f
+                for i, s2 in enumerate(seq2):
+                    if s2["n"] > s["n"] and is_mutating(s2):
+                        jobs.append((sc, mode, i, s2, "err:%d:%s" % (s["n"], e)))
+            ctx.part("second-deviation", first_faults_tried=len(first), survived=nsurv,
+                     kill_points_after_a_survived_fault=sum(1 for j in jobs if j[4]))
 
         def one(j):
-            sc, mode, i, s = j
+            sc, mode, i, s, pre = j
             tag = "k%d" % os.getpid()
-            r = runner.run(tag, sc, mode, inject="kill:%d" % s["n"])
+            r = runner.run(tag, sc, mode, inject=(pre + "," if pre else "") + "kill:%d" % s["n"])
             full = refs[(sc, mode)]
             prefix = r["tmp"] if mode[0] == "tmpdir" else r["final"]
             fl = flushed_bytes(r["log"], prefix)
@@ -230,6 +313,12 @@ def run_c09(prop, tier):
                 ob = read(os.path.join(dp, "stream.obs"))
                 if js is None:
                     continue          # not a stream: the emulator does not load it
+                if tid >= 200:
+                    # the finished stream another process left there: this process must not have touched it
+                    if rc == 0 and (ob != full[tid]["obs"] or js != full[tid]["json"]):
+                        probs.append("P1: ovniemu accepts the trace but the finished stream thread.%d of another process was altered (%d of %d bytes)" % (
+                            tid, len(ob or b""), len(full[tid]["obs"])))
+                    continue
                 if (sc, mode) in olds and olds[(sc, mode)].get(tid) == (js, ob):
                     continue          # still the complete stream of the earlier run: this run has not touched it
                 want = full[tid]["obs"][:fl.get(tid, 0)]
@@ -252,7 +341,7 @@ def run_c09(prop, tier):
             return ("ok", probs, rc)
         acc = 0
         for j, res in zip(jobs, pmap(one, jobs)):
-            sc, mode, i, s = j
+            sc, mode, i, s, pre = j
             ctx.add(evaluations=1)
             if res[0] == "nokill":
                 ctx.part("not-fired", **{"%s-%s-%d" % (sc, mode, i): res[1]})
@@ -260,14 +349,14 @@ def run_c09(prop, tier):
             if res[2] == 0:
                 acc += 1
             for p in res[1]:
-                ctx.violation("scenario %s mode %s, killed before syscall #%d %s(%s): %s" % (sc, mode, i, s["sc"], s["args"][:60], p),
-                              {"engine": "E5 ptrace kill", "scenario": sc, "ops": SCEN[sc.split(":")[-1]], "mode": mode, "kill_before": s},
+                ctx.violation("scenario %s mode %s%s, killed before syscall #%d %s(%s): %s" % (sc, mode, (" after the survived fault " + pre) if pre else "", i, s["sc"], s["args"][:60], p),
+                              {"engine": "E5 ptrace kill", "scenario": sc, "ops": SCEN[sc.split(":")[-1]], "mode": mode, "kill_before": s, "after_fault": pre},
                               {"kind": p[:2], "mode": mode[0], "readdir": mode[1]})
         ctx.cov["distinct_nontrivial"] = len(jobs)
         ctx.cov["accepted_by_emulator_after_kill"] = acc
         ctx.cov["kill_points_shadowed_by_per_thread_counting"] = nshadow
         ctx.cov["rule"] = ("scenarios (minimal; several explicit/automatic flushes > 8 KiB; first life ending exactly on a 4096-byte boundary then a second life; "
-                           "metadata flush in the middle; two threads in three serialisations; a thread id used again after its first owner ended; r:<scenario> = the same after a complete earlier run of another program with the same pid/tid in the same directories) x {direct, OVNI_TMPDIR with stream.json or stream.obs returned first "
+                           "metadata flush in the middle; two threads in three serialisations; three threads; every merge of two thread scripts with at most 2 (deep plan: 3) changes of the running thread; a thread id used again after its first owner ended; r:<scenario> = the same after a complete earlier run of another program with the same pid/tid in the same directories; q:<scenario> = next to the finished trace of another process of the loom; deep plan: also after one fault the runtime survives) x {direct, OVNI_TMPDIR with stream.json or stream.obs returned first "
                            "by readdir}: the process is killed before every syscall that changes the file system (kills before calls without effect leave the same "
                            "state); oracle P1: if ovniemu accepts, every loaded stream contains all bytes its thread had flushed; P2: a finished stream.json in the "
                            "final directory implies the complete stream.obs next to it")
@@ -285,11 +374,18 @@ FAULTS = {"mkdir": ["EACCES", "ENOSPC"], "openat": ["EACCES", "ENOSPC", "EMFILE"
 
 def run_c10(prop, tier):
     ctx = Ctx("C10", tier, "fault_enumeration")
+    tier = plan_of("C10", tier)
+    ctx.cov["plan"] = tier
     scratch = Scratch("C10")
     try:
         build = Build()
         runner = Runner(build, scratch)
-        scens = ["h1", "h2"] if tier == "quick" else ["h1", "h2", "h3", "h5", "h4a"]
+        scens = ["h1", "h2"] if tier == "quick" else ["h1", "h2", "h3", "h5", "h4a", "h8", "r:h1", "r:h3", "q:h1"]
+        if tier != "quick":
+            gen = interleavings(1 if tier == "thorough" else 2)
+            SCEN.update(gen)
+            scens += list(gen)
+            ctx.part("generated-interleavings", scenarios=len(gen), max_context_switches=1 if tier == "thorough" else 2)
         modes = [("direct", None), ("tmpdir", "obs-first"), ("same", None)] if tier == "quick" else \
                 [("direct", None), ("tmpdir", "json-first"), ("tmpdir", "obs-first"), ("same", None)]
         jobs = []
@@ -307,7 +403,7 @@ def run_c10(prop, tier):
                     for e in FAULTS.get(s["sc"], []):
                         if tier == "quick" and e != FAULTS[s["sc"]][0] and s["sc"] != "write":
                             continue
-                        jobs.append((sc, mode, i, s, e))
+                        jobs.append((sc, mode, i, s, e, None))
                 # partial completion: every write of the (single-threaded) runtime phase returns a short count once
                 if sc in ("h1", "h2"):
                     nw = 0
@@ -320,20 +416,20 @@ def run_c10(prop, tier):
                                 pass
                             nw += 1
                             for how in (1, 2, 3):
-                                jobs.append((sc, mode, i, s, "SHORT%d:%d" % (nw, how)))
+                                jobs.append((sc, mode, i, s, "SHORT%d:%d" % (nw, how), None))
 
         def one(j):
-            sc, mode, i, s, e = j
+            sc, mode, i, s, e, pre = j
             tag = "f%d" % os.getpid()
             if e.startswith("SHORT"):
                 r = runner.run(tag, sc, mode, shortwrite=e[5:])
                 fired = any("VERIF-SHORT" in x[2] for x in r["log"])
             else:
-                r = runner.run(tag, sc, mode, inject="err:%d:%s" % (s["n"], e))
-                fired = any("(INJECTED)" in x[4] for x in r["log"])
+                r = runner.run(tag, sc, mode, inject=(pre + "," if pre else "") + "err:%d:%s" % (s["n"], e))
+                fired = sum(1 for x in r["log"] if "(INJECTED)" in x[4]) == (2 if pre else 1)
             full = refs[(sc, mode)]
             if not fired:
-                return ("nofire",)
+                return ("nofire", [], None)
             aborted = r["rc"] in (134, -6) or any(x[1] == "+++" and "SIGABRT" in x[2] for x in r["log"])
             probs = []
             # never delete the only complete copy
@@ -344,18 +440,21 @@ def run_c10(prop, tier):
                         want = full[tid]["obs" if f.endswith("obs") else "json"]
                         src = read(os.path.join(tdirs[tid], f)) if tid in tdirs else None
                         dst = read(os.path.join(fdirs[tid], f)) if tid in fdirs else None
-                        reached_free = b'"finished": 1' in (src or b"") or b'"finished": 1' in (dst or b"") or (
-                            f.endswith("obs") and any(b'"finished": 1' in (read(os.path.join(d.get(tid, ""), "stream.json")) or b"") for d in (tdirs, fdirs)))
-                        if reached_free and src is None and dst != want:
+                        # did this run remove the temporary file?  (its own successful unlink, from the syscall log: what an
+                        # earlier run left in the final directory says nothing about this one)
+                        removed = tid in tdirs or src is None
+                        removed = src is None and any(e[1] == "unlink" and e[3] == "0" and r["tmp"] in e[2] and ("thread.%d/%s" % (tid, f)) in e[2]
+                                                      for e in r["log"])
+                        if removed and dst != want:
                             probs.append("the temporary %s of thread.%d was removed although its copy in the final directory is incomplete (%d of %d bytes)" % (
                                 f, tid, len(dst or b""), len(want)))
             if aborted:
                 if not r["stderr"].strip():
                     probs.append("terminated by abort without a diagnostic")
-                return ("abort", probs)
+                return ("abort", probs, None)
             if r["rc"] != 0:
                 probs.append("exit status %r (neither a normal return nor an abort)" % r["rc"])
-                return ("other", probs)
+                return ("other", probs, None)
             # returned normally: the final trace must be complete and valid
             fdirs = thread_dirs(r["final"])
             for tid in full:
@@ -372,27 +471,41 @@ def run_c10(prop, tier):
                 rc, msg = runner.emulate(r["final"])
                 if rc != 0:
                     probs.append("returned normally but ovniemu rejects the final trace: %s" % msg[-120:])
-            return ("normal", probs)
+            return ("normal", probs, seq_of(r["log"]) if (pre is None and not e.startswith("SHORT")) else None)
         outcomes = {}
-        for j, res in zip(jobs, pmap(one, jobs)):
-            sc, mode, i, s, e = j
-            ctx.add(evaluations=1)
-            outcomes[res[0]] = outcomes.get(res[0], 0) + 1
-            if res[0] == "nofire":
-                continue
-            for p in res[1]:
-                site = "relocation" if ("final" in s["args"] or (mode[0] == "tmpdir" and s["sc"] in ("read", "unlink", "getdents64"))) else "runtime"
-                ctx.violation("scenario %s mode %s, %s on syscall #%d %s(%s): %s" % (sc, mode, e, i, s["sc"], s["args"][:70], p),
-                              {"engine": "E5 ptrace fault", "scenario": sc, "ops": SCEN[sc], "mode": mode, "fault": e, "syscall": s},
-                              {"kind": "io-fault", "syscall": s["sc"], "what": p.split(" ")[0]})
+
+        def collect(jobs, results, second):
+            for j, res in zip(jobs, results):
+                sc, mode, i, s, e, pre = j
+                ctx.add(evaluations=1)
+                outcomes[res[0]] = outcomes.get(res[0], 0) + 1
+                if res[0] == "nofire":
+                    continue
+                for p in res[1]:
+                    ctx.violation("scenario %s mode %s, %s%s on syscall #%d %s(%s): %s" % (sc, mode, ("after the survived fault %s, " % pre) if pre else "", e, i, s["sc"], s["args"][:70], p),
+                                  {"engine": "E5 ptrace fault", "scenario": sc, "ops": SCEN[sc.split(":")[-1]], "mode": mode, "fault": e, "syscall": s, "after_fault": pre},
+                                  {"kind": "io-fault", "syscall": s["sc"], "what": p.split(" ")[0]})
+                if res[0] == "normal" and res[2] is not None and second is not None and sc in ("h1", "h2", "h3", "h5"):
+                    # the runtime survived this fault: every later call of that run fails once more (deviation bound 2)
+                    for i2, s2 in enumerate(res[2]):
+                        if s2["n"] <= s["n"] or (s2["sc"] == "write" and s2["args"].startswith(("2,", "-1,"))):
+                            continue
+                        for e2 in FAULTS.get(s2["sc"], [])[:2]:
+                            second.append((sc, mode, i2, s2, e2, "err:%d:%s" % (s["n"], e)))
+        second = [] if tier == "deep" else None
+        collect(jobs, pmap(one, jobs), second)
+        if second:
+            ctx.part("second-deviation", survived_first_faults=len({(j[0], j[1], j[5]) for j in second}), fault_pairs=len(second))
+            collect(second, pmap(one, second), None)
+            jobs = jobs + second
         ctx.cov["distinct_nontrivial"] = len(jobs)
         ctx.cov["outcomes"] = outcomes
         ctx.cov["rule"] = ("the same scenarios and modes as C09 plus OVNI_TMPDIR naming the trace directory; every runtime-phase syscall (mkdir, openat, write, read, close, newfstatat, getdents64, unlink, rmdir) "
-                           "fails once with each errno of its class (EACCES/ENOSPC/EMFILE/EIO, EINTR for write), and every write() of the single-threaded scenarios completes partly once "
+                           "fails once with each errno of its class (EACCES/ENOSPC/EMFILE/EIO, EINTR for write; deep plan: and, when the runtime survives that, every later call fails once more), and every write() of the single-threaded scenarios completes partly once "
                            "(1 byte, half, all but one byte; link-level interposition in the driver); oracle: abort with a diagnostic, or normal return with a complete "
                            "valid final trace accepted by ovniemu; in both cases no temporary file is removed while its final copy is incomplete")
         ctx.sample({"scenario": "h2", "mode": ["tmpdir", "obs-first"], "fault": "ENOSPC on the 2nd write of the relocation copy of stream.obs"})
-        ctx.assumptions += ["single faults; stdio's own write loop (relocation copy) is not interposed",
+        ctx.assumptions += ["single faults (deep plan: pairs whose first fault is survived); stdio's own write loop (relocation copy) is not interposed",
                             "error injection (harness/killat.c, ptrace): the call does not execute and returns -errno"]
         return ctx.finish()
     finally:
